@@ -83,3 +83,29 @@ Proof.
   exact (proj1 (one_index_all_histories w dyn ops) g1 H1).
 Qed.
 Print Assumptions token_index_unique.
+
+(* KNOWN FINDING K0 (known_findings.json): the last sentence of the property - "after a successful
+   revocation by the owning client neither the access token nor the refresh token of that grant works
+   again" - is FALSE when the revoked access token's lifetime had already elapsed: /revoke answers 200
+   (revoked_dead's first disjunct: nothing live was found, the store is untouched) and the refresh token
+   of the same grant still yields tokens.  Witness, evaluated in the model and replayed on the real
+   provider by the c05 suite on every run: *)
+Definition k0_world : world :=
+  let c2 := mkClient 2 false [GAuthorizationCode; GRefreshToken] ["code"] ["https://c2.example/cb"] "openid" CibaNone false false false false false false false 0 false in
+  mkWorld (match build POpenID [WithAuthorizationCodeGrant; WithRefreshTokenGrant 1000%Z; WithTokenRevocation; WithTokenLifetime 40%Z] with Some c => c | None => base_config POpenID end) [c2].
+Definition k0_ops : list op :=
+  let p := mkParams 0 "https://c2.example/cb" "" "code" "openid" "st" "" PkEmpty "" 0 "" 0 "" in
+  let tr code rt := mkTReq (mkCred 2 true) no_bind "" code "https://c2.example/cb" rt PkEmpty 0 HgOk BaApprove in
+  [OpAuthorize (mkAReq 2 p true (PolSuccess "alice" "openid"));
+   OpToken GAuthorizationCode (tr (mint 0 KCode) 0);
+   OpTick 45%Z;
+   OpRevoke (mkQReq (mkCred 2 true) (PExact (mint 1 KAtOpaque)) true);
+   OpToken GRefreshToken (tr 0 (mint 1 KRefresh))].
+Theorem revoke_of_expired_access_token_refuted :
+  match run k0_world [] k0_ops with
+  | [Out (ONav _ _ _); Out (OTokens t); Out OOk; Out OOk; Out (OTokens _)] =>
+      tr_at t = mint 1 KAtOpaque /\ tr_rt t = mint 1 KRefresh
+  | _ => False
+  end.
+Proof. vm_compute. split; reflexivity. Qed.
+Print Assumptions revoke_of_expired_access_token_refuted.
